@@ -93,11 +93,11 @@ Print Assumptions C01_label_break.
 Theorem C01_reduce_unfold : forall bs n rho src pat start upd v ps k,
   eval_t bs (S n) rho (Term (TReduce src pat start upd) []) v ps k =
   eval_q bs n rho start v ps (fun s0 ps0 =>
-    c <- new_cell s0 ;;
-    eval_q bs n rho src v ps0 (fun item ps1 =>
-      ev_bindpat (evals_n bs n) rho pat item ps1 (fun rho' ps2 =>
-        cur <- get_cell c ;; eval_q bs n rho' upd cur ps2 (fun u _ => set_cell c u))) ;;
-    res <- get_cell c ;; free_cell c ;; k res ps0).
+    with_cell (scoped_ids ps0) s0
+      (fun c => eval_q bs n rho src v ps0 (fun item ps1 =>
+         ev_bindpat (evals_n bs n) rho pat item ps1 (fun rho' ps2 =>
+           cur <- get_cell c ;; eval_q bs n rho' upd cur ps2 (fun u _ => set_cell c u))))
+      (fun res => k res ps0)).
 Proof. exact reduce_unfold. Qed.
 Print Assumptions C01_reduce_unfold.
 
